@@ -149,12 +149,13 @@ func (p *Plugin) Do(event *pipeline.Event) pipeline.ActionResult {
 func unescapeMap(fields Config) Config {
 	newConfig := make(Config, 0, len(fields))
 	fields.ForEach(func(key string, value string) {
+		if key != "" && key[0] == '_' {
+			key = key[1:]
+		}
+		// an empty selector is no rename operation - also when only the escaping underscore was given:
+		// Dig() of the empty path is the root itself, and renaming the root ties the tree into a cycle
 		if key == "" {
 			return
-		}
-
-		if key[0] == '_' {
-			key = key[1:]
 		}
 		newConfig.Append(key, value)
 	})
